@@ -107,6 +107,8 @@ pub struct SockLog {
     pub panicked: Option<String>,
     pub end_us: u64,
     pub trace_hash: u64,
+    /// creation (true) / destruction (false) of connection objects: (virtual us, created, remote, send id)
+    pub lifecycle: Vec<(u64, bool, SocketAddr, u16)>,
     /// per still-open stream: did the bytes read so far match the connector's coded stream
     pub streams_open_at_end: usize,
     pub event_times: Vec<u64>,
@@ -391,6 +393,7 @@ async fn run_async(script: &SockScript) -> SockLog {
         out.connecting_at_end.push(g.map(|g| g.connecting).unwrap_or(0));
     }
     out.live_at_end = librqbit_utp::verif::live_vsocks().len();
+    out.lifecycle = librqbit_utp::verif::vsock_lifecycle().into_iter().map(|(t, c, r, id)| (net.us_of(t), c, r, id)).collect();
     out.arms = librqbit_utp::verif::take_arms();
     net_task.abort();
     let (wire, _) = net.take_log();
